@@ -667,4 +667,105 @@ theorem readIntBytes_iff (s r out : Bytes) :
           obtain ⟨rfl, rfl⟩ := hr'
           exact ⟨rfl, rfl⟩
 
+/-- ReadASN1(out, tag) / ReadASN1Bytes / SkipASN1 -/
+theorem readASN1Tag_iff (t : UInt8) (s body rest : Bytes) :
+    readASN1Tag t s = some (body, rest) ↔
+      ((t &&& 0x1f == 0x1f) = false ∧ body.length ≤ 0xfffffff9 ∧ s = t :: (derLen body.length ++ body ++ rest)) := by
+  unfold readASN1Tag
+  cases h : readAnyASN1 s with
+  | none =>
+    simp only [false_iff, reduceCtorEq]
+    intro hh
+    have := (readAnyASN1_iff s t body rest).mpr hh
+    rw [h] at this; cases this
+  | some p =>
+    obtain ⟨t', b, r⟩ := p
+    have h' := (readAnyASN1_iff s t' b r).mp h
+    by_cases ht : t' = t
+    · subst ht
+      simp only [beq_self_eq_true, if_true, Option.some.injEq, Prod.mk.injEq]
+      constructor
+      · rintro ⟨rfl, rfl⟩; exact h'
+      · intro hh
+        have := (readAnyASN1_iff s t' body rest).mpr hh
+        rw [h] at this
+        simp only [Option.some.injEq, Prod.mk.injEq, true_and] at this
+        exact this
+    · have hne : (t' == t) = false := by simpa using ht
+      simp only [hne, Bool.false_eq_true, if_false, false_iff, reduceCtorEq]
+      intro hh
+      have := (readAnyASN1_iff s t body rest).mpr hh
+      rw [h] at this
+      simp only [Option.some.injEq, Prod.mk.injEq] at this
+      exact ht this.1
+
+/-- ReadAnyASN1Element: the same acceptance, the whole TLV is returned -/
+theorem readAnyASN1Element_iff (s : Bytes) (t : UInt8) (whole rest : Bytes) :
+    readAnyASN1Element s = some (t, whole, rest) ↔
+      ∃ body, (t &&& 0x1f == 0x1f) = false ∧ body.length ≤ 0xfffffff9 ∧
+        whole = t :: (derLen body.length ++ body) ∧ s = whole ++ rest := by
+  unfold readAnyASN1Element
+  constructor
+  · intro h
+    cases hr : readASN1 s with
+    | none => simp [hr] at h
+    | some e =>
+      simp only [hr, Option.map_some, Option.some.injEq, Prod.mk.injEq] at h
+      obtain ⟨h1, h2, h3⟩ := h
+      obtain ⟨a, b, _, d, f⟩ := readASN1_sound s e hr
+      subst h1 h2 h3
+      exact ⟨e.body, a, b, d, f⟩
+  · rintro ⟨body, ht, hn, hw, hs⟩
+    have := readASN1_der t body rest ht hn
+    subst hw hs
+    simp only [List.cons_append, List.append_assoc] at this ⊢
+    rw [this]; rfl
+
+/-- ReadASN1Element(out, tag) -/
+theorem readASN1ElementTag_iff (t : UInt8) (s whole rest : Bytes) :
+    readASN1ElementTag t s = some (whole, rest) ↔ readAnyASN1Element s = some (t, whole, rest) := by
+  unfold readASN1ElementTag
+  cases h : readAnyASN1Element s with
+  | none => simp
+  | some p =>
+    obtain ⟨t', w, r⟩ := p
+    by_cases ht : t' = t
+    · subst ht; simp
+    · have hne : (t' == t) = false := by simpa using ht
+      simp only [hne, Bool.false_eq_true, if_false, Option.some.injEq, Prod.mk.injEq, false_iff, reduceCtorEq]
+      rintro ⟨h1, _⟩; exact ht h1
+
+/-- **bool_iff**: ReadASN1Boolean accepts exactly `01 01 00` (false) and `01 01 ff` (true) -/
+theorem bool_iff (s rest : Bytes) (v : Bool) :
+    readBool s = some (v, rest) ↔ s = [1, 1, (if v then 0xff else 0)] ++ rest := by
+  constructor
+  · intro h
+    obtain ⟨b, hr, hb⟩ := bool_contents s v rest h
+    obtain ⟨_, _, hs⟩ := (readASN1Tag_iff 1 s [b] rest).mp hr
+    rw [hs]
+    rcases hb with ⟨rfl, rfl⟩ | ⟨rfl, rfl⟩ <;> simp [derLen]
+  · exact bool_iff_partial s rest v
+
+/-! ### non-vacuity -/
+
+example : readAnyASN1 [0x30, 0x03, 0x02, 0x01, 0x05, 0xff] = some (0x30, [0x02, 0x01, 0x05], [0xff]) := by decide
+example : readAnyASN1 [0x30, 0x81, 0x03, 0x02, 0x01, 0x05] = none := by decide   -- long form for a short length
+example : readSigned 8 [0x02, 0x01, 0x80] = some (-128, []) := by decide
+example : readSigned 8 [0x02, 0x02, 0x00, 0x80] = none := by decide              -- 128 does not fit int8
+example : readSigned 16 [0x02, 0x02, 0x00, 0x80] = some (128, []) := by decide
+example : readSigned 64 [0x02, 0x02, 0x00, 0x7f] = none := by decide             -- non-minimal
+example : readUnsignedInt 8 [0x02, 0x02, 0x00, 0xff] = some (255, []) := by decide
+example : readBigInt [0x02, 0x01, 0xff, 0x00] = some (-1, [0x00]) := by decide
+example : readIntBytes [0x02, 0x02, 0x00, 0x80] = some ([0x80], []) := by decide
+example : readEnum [0x0a, 0x01, 0x03] = some (3, []) := by decide
+example : readOID [0x06, 0x03, 0x88, 0x37, 0x03] = some ([2, 999, 3], []) := by decide
+example : readOID [0x06, 0x02, 0x80, 0x01] = none := by decide                   -- 0x80-led sub-identifier
+example : readBitString [0x03, 0x02, 0x07, 0x80] = some ((1, [0x80]), []) := by decide
+example : readBitString [0x03, 0x02, 0x07, 0x81] = none := by decide             -- dirty padding bits
+example : readOptionalWith (readSigned 64) 7 0xa0 [0x02, 0x01, 0x05] = some (7, [0x02, 0x01, 0x05]) := by decide
+example : readOptionalBool false 0xa0 [0xa0, 0x04, 0x01, 0x01, 0xff, 0x00] = none := by decide
+example : addSigned 2 (-129) = some [0x02, 0x02, 0xff, 0x7f] := by decide
+example : addOID [2, 999, 3] = some [0x06, 0x03, 0x88, 0x37, 0x03] := by decide
+example : addOID [2, 2 ^ 63 - 80] = none := by decide
+
 end XC.C23
